@@ -27,7 +27,10 @@ AcceptSplit(r) ==
           /\ p.trailok /\ p.trailing <= 2                   \* the rest of the file is the splitter's own index nodes (subset, epoch): well-formed sections
           /\ p.trailorig = 0                               \* nothing of the original CAR after the content region (an object is in ONE piece)
     /\ r.headerOK /\ r.readback = r.orig                  \* the reassembled CAR reads back as the original
-Accept(r) == IF r.kind = "split" THEN AcceptSplit(r) ELSE AcceptReads(r)
+\* kind "splitfault": a piece file cannot be created - fail loudly, or write everything all the same
+Accept(r) == IF r.kind = "split" THEN AcceptSplit(r)
+             ELSE IF r.kind = "splitfault" THEN r.loud \/ r.complete
+             ELSE AcceptReads(r)
 \* growth (not part of C16's statement): merge-cars of the written pieces = nul-root header ++ every piece without its header
 MergeOK(r) == r.kind = "split" /\ r.err = "" => r.mergedsame
 Init == l = 1
